@@ -106,7 +106,8 @@ def build(shape, X, Y, Z):
     raise AssertionError(shape)
 
 
-def fam_cond(E, shapes, xk, yk, zk, nchanges=3, nwaiters=1, real=False, fault_kinds=None):
+def fam_cond(E, shapes, xk, yk, zk, nchanges=3, nwaiters=1, real=False, fault_kinds=None,
+             ndrivers=1):
     shape = shapes[E.pick('shape', len(shapes))]
     W = World(E)
     kx = xk[E.pick('kx', len(xk))]
@@ -135,8 +136,11 @@ def fam_cond(E, shapes, xk, yk, zk, nchanges=3, nwaiters=1, real=False, fault_ki
     async def sleeper():
         await (time + dtask)
 
-    async def driver():
-        for what, gap, val in changes:
+    async def driver(d=0):
+        # with several drivers the changes are dealt out round-robin; two drivers whose dates
+        # coincide change the atoms in one time step *between* a waiter's wake-up being queued
+        # and the waiter running (set by one activity, reverted by another)
+        for what, gap, val in changes[d::ndrivers]:
             await (time + gap)
             log('drv', 'change', what)
             if what == 0:
@@ -183,6 +187,8 @@ def fam_cond(E, shapes, xk, yk, zk, nchanges=3, nwaiters=1, real=False, fault_ki
                 fault.spawn(top, driver, log)
             else:
                 top.do(driver())
+            for d in range(1, ndrivers):
+                top.do(driver(d))
             await (time + 60)
 
     state = {'last': None}
@@ -284,6 +290,13 @@ FAMILIES = [
                          fault_kinds=[Fault.CANCEL, Fault.INTERRUPT, Fault.CLOSE]),
            reach=['resumed'],
            bounds='the activity that changes the atoms is cancelled / interrupted at (c,p)'),
+    Family('two_drivers', fam_cond,
+           quick=dict(shapes=['X', 'X&Y'], xk=[F1, TR], yk=[F2], zk=[F2], nchanges=2, ndrivers=2),
+           thorough=dict(shapes=['X', '~X', 'X&Y', 'X|Y'], xk=[F1, TR, RES], yk=[F2, AFTER],
+                         zk=[F2], nchanges=3, ndrivers=2, _max_wall=1200),
+           reach=['resumed', 'never-true'],
+           bounds='the changes are made by two independent activities (a change can be reverted '
+                  'by another activity in the time step in which it woke the waiter)'),
     Family('float_time', fam_float_time, quick=dict(), thorough=dict(), reach=['resumed'],
            bounds='time conditions on IEEE double dates (z3 floating point)'),
     Family('two_waiters', fam_cond,
